@@ -110,6 +110,11 @@ def run(tier="quick", seed=0):
                     v("C29/clear-removed-content-outside-head", inp, outside)
                 if step != "close" and f.path and os.path.exists(f.path):
                     v("C29/clear-left-own-path-behind", inp, f.path)
+                # a TEMP resource lives in a directory the Filer made itself (mkdtemp): closing with clear must remove that too
+                if step != "close":
+                    left = [r_ for r_ in roots[1:] if os.path.exists(r_)]
+                    if left:
+                        v("C29/temp-directory-left-behind", dict(inp, witness_class="temp-head-directory-never-removed"), [os.path.relpath(x, sandbox) for x in left][:3])
             except hioing.FilerError:
                 pass          # rejected configuration
             except Exception as ex:   # noqa
